@@ -373,14 +373,14 @@ func run(c Case) kit.Result {
 	// non-trivial: at least one strict prefix exists and the op touches an already pinned CID
 	nt := len(writes) >= 2 && touchesPinned
 	crashStates += len(writes) + 1
-	kit.Note("C23", "main", "crash_states_evaluated_in_shard0_or_last_shard", crashStates)
+	kit.Note("C23", "main", "crash_states_evaluated_in_one_shard", crashStates)
 	return kit.Result{NonTrivial: nt, Classes: cls}
 }
 
 var spec = kit.Spec[Case]{
 	Prop: "C23", Name: "main",
-	Rule: "random DAG (2..7 nodes), fault-free history of 0..7 pinner calls, then one cut op (Pin/PinWithMode/Unpin/Update/Flush) whose Put/Delete sequence on the pinner's datastore is recorded; for every prefix (0..len) the prefix is applied to a copy of the pre-op snapshot, dspinner.New reopens it (dirty flag => index rebuild) and I1 records<->indexes (raw keys and via queries), I2 nothing pinned before is lost unless the op unpins it, I3 queries do not error are checked; non-trivial = the cut op makes >= 2 writes and targets a CID that holds a pin",
-	Quick: 3000, Thorough: 12000,
+	Rule:  "random DAG (2..7 nodes), fault-free history of 0..7 pinner calls, then one cut op (Pin/PinWithMode/Unpin/Update/Flush) whose Put/Delete sequence on the pinner's datastore is recorded; for every prefix (0..len) the prefix is applied to a copy of the pre-op snapshot, dspinner.New reopens it (dirty flag => index rebuild) and I1 records<->indexes (raw keys and via queries), I2 nothing pinned before is lost unless the op unpins it, I3 queries do not error are checked; non-trivial = the cut op makes >= 2 writes and targets a CID that holds a pin",
+	Quick: 3000, Thorough: 10000,
 	Gen: gen, Run: run,
 }
 
